@@ -68,6 +68,12 @@ func tables() []tableInfo {
 				{"del3", "delete", gen.Stmt{Name: "del3", Kind: "delete", SQL: "DELETE FROM t_s5 WHERE id <= 3"}, nil},
 				{"ins1", "insert", gen.Stmt{Name: "ins1", Kind: "insert", SQL: "INSERT INTO t_s5 (id, email, score, memo) VALUES (5, 'e@x', 5.5, 'm5')"}, nil},
 			}},
+		// a time-typed written column: the foreign 'third value' lies in the same second as the value the branch wrote
+		{schema: &gen.S6, init: []int{0, 1}, third: "c_dt = '2025-01-01 01:02:03.900000'", written: "c_dt", unwr: "c_vc = 'foreign'",
+			keyWhere: func(pk []memdb.Value) (string, []interface{}) { return "id = ?", []interface{}{pk[0]} },
+			branches: []branchStmt{
+				{"upd-dt", "update", gen.Stmt{Name: "upd-dt", Kind: "update", SQL: "UPDATE t_s6 SET c_dt = ? WHERE id = 1", Args: []interface{}{"2025-01-01 01:02:03.000004"}}, []string{"c_dt"}},
+			}},
 	}
 }
 
